@@ -11,9 +11,10 @@
 
    Covered at MODEL level (the models of C02/C03/C04/C06/C07/C10, unchanged): matching cost sad / ssd
    with its validity mask (criteria.py), winner-takes-all, refinement vfit / quadratic, median filter,
-   cross-checking (left and right products), and every pipeline made of them, any length, any order.
+   bilateral filter (for every pair of Gaussian kernels), cross-checking (left and right products), and
+   every pipeline made of them, any length, any order.
    Covered at SPEC level only: census and zncc costs.  Not covered by a theorem (metamorphic runs
-   only): cbca, bilateral filter, vertical flip.  Hence the name [C13_pipeline_local_partial]. *)
+   only): cbca, vertical flip.  Hence the name [C13_pipeline_local_partial]. *)
 From Coq Require Import ZArith QArith List Bool.
 From Pandora Require Import Spec.Local Spec.Cost Model.MatchingCost Model.Local.
 From Pandora Require Import Proofs.LocalP Proofs.LocalCostP Proofs.LocalStepsP Proofs.MatchingCostP.
@@ -150,6 +151,12 @@ Theorem C13_median_step_local : forall inv B w, 1 <= B -> 0 <= w ->
   local no_side (median_step inv B w) (rad_filter w) (rad_filter w).
 Proof. exact median_step_local. Qed.
 
+(* bilateral filter (every block size, ANY spatial kernel sk and range kernel rk, which are data computed by
+   numpy): radius int(3 sigma_space + 1) / 2, odd or even window *)
+Theorem C13_bilateral_step_local : forall inv B sigma sk rk, 1 <= B -> 0 <= bil_win sigma ->
+  local no_side (bilateral_step inv B sigma sk rk) (rad_filter (bil_win sigma)) (rad_filter (bil_win sigma)).
+Proof. exact bilateral_step_local. Qed.
+
 (* cross-checking, both directions: same row, columns within the disparity span; the pixel must also be
    outside the window margin that mask_border paints.  Side condition: a still-valid pixel holds a
    disparity that rounds into its interval (C03/C04's invariant; checked on every real run). *)
@@ -168,14 +175,14 @@ Theorem C13_pipeline_local_partial : forall V steps, env_wf V -> Forall step_wf 
 Proof. exact pipe_local. Qed.
 
 (* the full statement the partial theorem stands for: the same for pipelines that may also contain
-   census / zncc matching costs, cbca aggregation and the bilateral filter *)
+   census / zncc matching costs and cbca aggregation *)
 Definition C13_pipeline_local_full : Prop :=
   forall (kop : env -> kstep -> op pix pix) (kside : env -> list kstep -> side pix) V ks,
     env_wf V ->
     local (kside V ks) (run_pipe (map (kop V) ks)) (fst (kpipe_rad (e_cfg V) ks)) (snd (kpipe_rad (e_cfg V) ks)).
 (* missing: models-as-ops of census / zncc (their SPEC is local: C13_cost_local), of cbca (C11 gives
-   region = arms; arms read at most cbca_distance pixels of the 3x3-median-filtered images) and of the
-   bilateral filter; [kop] would be instantiated by them. *)
+   region = arms; arms read at most cbca_distance pixels of the 3x3-median-filtered images); [kop] would
+   be instantiated by them. *)
 
 (* tiles: the pipeline run on ANY crop containing the cone equals the run on the whole raster *)
 Theorem C13_pipeline_crop_partial : forall V steps (F : frame pix) r0 c0 h w r c,
@@ -199,7 +206,7 @@ Definition ex_cfg : cfg := mkCfg 3 1 (-2) 1 true false 0 1.
 Definition ex_env : env :=
   mkEnvL (Criteria.mkEnv Flags.consts Flags.flag_sites)
          (Refine.mkK RefineConsts.msk_invalid RefineConsts.msk_stopped) Constants.msk_pixel_invalid
-         Constants.wta_argmin_block Constants.median_block ex_cfg.
+         Constants.wta_argmin_block Constants.median_block Constants.bilateral_block ex_cfg.
 Definition ex_steps : list step :=
   [SMc false; SWta false None; SRefine Refine.Vfit Refine.MMin; SMedian 3; SXcheck 1%Q].
 
@@ -224,7 +231,7 @@ Definition ex2_cfg : cfg := mkCfg 1 1 (-1) 1 false false 0 1.
 Definition ex2_env : env :=
   mkEnvL (Criteria.mkEnv Flags.consts Flags.flag_sites)
          (Refine.mkK RefineConsts.msk_invalid RefineConsts.msk_stopped) Constants.msk_pixel_invalid
-         Constants.wta_argmin_block Constants.median_block ex2_cfg.
+         Constants.wta_argmin_block Constants.median_block Constants.bilateral_block ex2_cfg.
 Definition ex2_F : frame pix :=
   mkFrame 3 8 (fun r c => mkPix ((r * 7 + c * c * 3) mod 11) (((r * 7 + (c + 1) * (c + 1) * 3) mod 11) + r mod 2)
                                 0 0 [] [] None None 0 0).
@@ -248,6 +255,7 @@ Print Assumptions C13_mc_step_local.
 Print Assumptions C13_wta_step_local.
 Print Assumptions C13_refine_step_local.
 Print Assumptions C13_median_step_local.
+Print Assumptions C13_bilateral_step_local.
 Print Assumptions C13_xcheck_step_local.
 Print Assumptions C13_pipeline_local_partial.
 Print Assumptions C13_pipeline_crop_partial.
